@@ -77,3 +77,21 @@ lemma("tv_all_closed_is_boolean", props=["C06", "C03"], types={"xs": f"List[{R}]
       hyps="forall(i, 0, len(xs), xs[i].val == 0 or xs[i].val == 1) and post('ThreeValuedTruth.all', args=xs, result=r1)",
       goal="r1.val == ite(forall(i, 0, len(xs), xs[i].val == 1), 1, 0)",
       note="on definite verdicts `all` is Boolean conjunction (used for closed trees, C03)")
+
+
+# ---- SMT atoms on open trees are UNKNOWN (C06) -----------------------------------------------------------------------
+# evaluate_smt_formula, up to the point where the atom is instantiated: if a free variable is unassigned or a
+# substituted tree is open (both computed by set / dict operations outside the subset: ghost Booleans bound to the
+# exact expression texts), the verdict is UNKNOWN -- never a definite value.  Not SMT formulas: Nothing.
+EV = "isla/evaluator.py::evaluate_smt_formula"
+UNASSIGNED = "formula.free_variables().difference(assignments)"
+OPEN_SUBST = "any((tree.is_open() for tree in formula.substitutions.values()))"
+contract(EV + "@open", props=["C06", "C03"],
+         types={"formula": "Rec:Formula", "assignments": "Any", "_1": "Any", "_2": "Any", "_3": "Any", "_4": "Any"},
+         closure={"unassigned": "Bool", "open_subst": "Bool"}, returns=f"Opt[{R}]",
+         requires="unassigned or open_subst or formula.kind != 0",
+         fragment=dict(rule="until_stmt", starts_with="z3_formula = "),
+         ensures={"not_an_smt_formula_is_declined": "(result is None) == (formula.kind != 0)",
+                  "open_or_unassigned_is_unknown": "implies(formula.kind == 0, result.val == 2)"},
+         path_hints={"ghost_exprs": {UNASSIGNED: "unassigned", OPEN_SUBST: "open_subst"}},
+         crosscheck=False)
